@@ -603,6 +603,10 @@ func C09(tier string) {
 		name, data := c09CaseByRank(fams, rk)
 		r.Sample(map[string]interface{}{"rank": rk, "case": name, "len": len(data), "data_hex_first_64": hexHead(data, 64)})
 	}
+	if tier == "thorough" {
+		// configuration: 32-bit platform (the quick tier of this check, built for GOARCH=386)
+		subRunArch(r, "C09", "386")
+	}
 	r.Finish()
 }
 
